@@ -8,6 +8,7 @@ import RdfModel.Proofs.C10CtxPanic
 import RdfModel.Proofs.C10CtxPrefix
 import RdfModel.Proofs.C10CtxRefine
 import RdfModel.Proofs.C10CtxFuel
+import RdfModel.Proofs.C10CtxLink
 import RdfModel.Proofs.C12WrapPanic
 namespace RdfModel.C10Ctx
 open RdfModel RdfModel.JL RdfModel.JLC
@@ -160,6 +161,54 @@ theorem prefix_entry_spec (mode : Mode) (term : Str) (vo : List (Str × Json)) (
     (getKey kPrefix vo = some (.bool p) ∧ mode ≠ .v10 ∧ term.contains cColon = false ∧ term.contains cSlash = false ∧
       (p = true → ∀ k, e ≠ .kw k)) :=
   prefixStep_ok mode term vo e p0 p h
+
+/-- THE LINK: the prefix flag of the definition Create Term Definition STORES. For a term that this call
+    defines (not yet in `defined`, not keyword-like) with a definition `value` of the local context that has no
+    `@reverse` entry (and whose `@id`, if a string other than the term, is a keyword or not keyword-like — otherwise
+    step 14.2.2 returns without a definition): when the call succeeds, the active context holds a definition `d`
+    for the term and `d.pfx` is the outcome of step 25 (`prefixStep`: the `@prefix` entry, `prefix_entry_spec`) applied
+    to `basePfx` = the flag of step 14.2.5 (`prefix_flag_spec`) on the stored IRI mapping when the definition has an
+    `@id` string other than the term, and `false` otherwise (steps 14.1, 15–18). Holds for every other entry of the
+    definition, every callback outcome, and also when a protected previous definition is kept (step 27: `Equals`
+    compares the prefix flags). Not covered: definitions with `@reverse` (step 13 stores `false`). -/
+theorem prefix_flag_stored {P : Type} (ops : IriOps P) (mode : Mode) (fuel : Nat) (loc : List (Str × Json))
+    (st st' : St P) (term : Str) (base : Option Str) (prot ov : Bool)
+    (h : ctd ops mode (fuel + 1) loc st term base prot ov = .ok () st')
+    (hnew : mget term st.defined = none) (hkf : isKeywordForm term = false)
+    (value : Json) (vo : List (Str × Json)) (simple : Bool)
+    (hv : getKey term loc = some value) (hn : normalizeValue value = .ok (vo, simple))
+    (hrev : getKey kReverse vo = none)
+    (hi : ∀ i, getKey kId vo = some (.str i) → i ≠ term → isKeyword i = true ∨ isKeywordForm i = false) :
+    ∃ d, mget term st'.ctx.core.terms = some d ∧
+      prefixStep mode term vo d.iri (basePfx mode term vo simple d.iri) = .ok d.pfx := by
+  simp only [ctd] at h
+  exact prefix_flag_stored_aux mode _ _ _ loc st st' term base prot ov h hnew hkf value vo simple hv hn hrev hi
+
+example : ∃ st', ctd (P := Unit) ⟨fun _ => .err, fun _ => false, fun _ _ => none, fun _ => [], fun _ => .no⟩ .v11 3
+    [(asc "t", .str (asc "http://e/x#"))] { ctx := Context.initial none, defined := [] } (asc "t") none false false
+      = .ok () st' := ⟨_, rfl⟩
+
+/-- for a simple term definition `"t": "iri"` the stored flag satisfies the right-hand side of `prefix_flag_spec`
+    (with *simple term* true) on the stored IRI mapping -/
+theorem prefix_flag_stored_simple {P : Type} (ops : IriOps P) (mode : Mode) (fuel : Nat) (loc : List (Str × Json))
+    (st st' : St P) (term i : Str) (base : Option Str) (prot ov : Bool)
+    (h : ctd ops mode (fuel + 1) loc st term base prot ov = .ok () st')
+    (hnew : mget term st.defined = none) (hkf : isKeywordForm term = false)
+    (hv : getKey term loc = some (.str i)) (hne : i ≠ term)
+    (hi : isKeyword i = true ∨ isKeywordForm i = false) :
+    ∃ d, mget term st'.ctx.core.terms = some d ∧
+      (d.pfx = true ↔ (mode = .v10 ∨ (hasColonOrSlash term = false ∧
+        ((∃ t c, d.iri = .iri t ∧ t.getLast? = some c ∧ c ∈ genDelims) ∨ (∃ t, d.iri = .bnode t))))) := by
+  have hid : getKey kId [(kId, Json.str i)] = some (.str i) := by simp [getKey]
+  obtain ⟨d, hd, hp⟩ := prefix_flag_stored ops mode fuel loc st st' term base prot ov h hnew hkf
+    (.str i) [(kId, .str i)] true hv rfl (by simp [getKey, kId, kReverse, asc])
+    (fun j hj _ => by rw [hid] at hj; cases hj; exact hi)
+  refine ⟨d, hd, ?_⟩
+  have hnp : getKey kPrefix [(kId, Json.str i)] = none := by simp [getKey, kId, kPrefix, asc]
+  have hne' : (i == term) = false := by simpa using hne
+  simp only [prefixStep, hnp, Except.ok.injEq, basePfx, hid, hne', Bool.false_eq_true, if_false] at hp
+  rw [← hp, prefixFlag145_iff]
+  simp
 
 example : prefixStep .v11 (asc "p") [(kPrefix, .bool true)] (.iri (asc "http://e/x")) false = .ok true := rfl
 example : prefixStep .v11 (asc "p") [] (.iri (asc "http://e/x#")) true = .ok true := rfl
